@@ -4132,8 +4132,6 @@ M('C08', 'dispatch-factory-gets-root-class', TY, '    def __call__(cls, packet=N
   '    @staticmethod\n    def _makeobj(cls):\n        obj = object.__new__(cls)\n        obj.__init__()\n        return obj\n\n    def __call__(cls, packet=None):  # NOQA\n', 'C08.g', more=[(TY, '            obj = _makeobj(ncls)\n', '            obj = MetaDispatchable._makeobj(rcls)\n'), (TY, '            obj = _makeobj(cls)\n', '            obj = MetaDispatchable._makeobj(cls)\n')])
 M('C08', 'skesk-remainder-minus-1', PK, '        ctend = self.header.length - len(self.s2k)\n',
   '        ctend = self.header.length - len(self.s2k) - 1\n', 'C08.d')
-M('C08', 'sigv4-tuple-reads-swapped', PK, '        self.sigtype = packet[0]\n        del packet[0]\n\n        self.pubalg = packet[0]\n        del packet[0]\n\n        self.halg = packet[0]\n        del packet[0]\n\n        self.subpackets.parse(packet)\n\n        self.hash2 = packet[:2]\n        del packet[:2]\n\n        self.signature.parse(packet)\n',
-  '        sigtype, halg, pubalg = packet[0], packet[1], packet[2]\n        del packet[:3]\n        self.sigtype = sigtype\n        self.pubalg = pubalg\n        self.halg = halg\n\n        sp = self.subpackets\n        sp.parse(packet)\n\n        left16 = packet[:2]\n        del packet[:2]\n        self.hash2 = left16\n\n        self.signature.parse(packet)\n', 'C08.c')
 M('C08', 'pubkey-fixed-part-sum-5', PK, '        self.created = packet[:4]\n        del packet[:4]\n\n        self.pkalg = packet[0]\n        del packet[0]\n\n        # bound keymaterial to the remaining length of the packet\n        pend = self.header.length - 6\n        self.keymaterial.parse(packet[:pend])\n        del packet[:pend]\n',
   '        self.created = packet[:4]\n        self.pkalg = packet[4]\n        del packet[:5]\n\n        fixed = 4 + 1\n        body = packet[:self.header.length - fixed]\n        self.keymaterial.parse(body)\n        del packet[:self.header.length - fixed]\n', 'C08.d')
 M('C08', 'elg-alias-guard-falls-through', FL, '        if not self.s2k:\n            self.x = MPI(packet)\n\n            if self.s2k.usage == 0:\n                self.chksum = packet[:2]\n                del packet[:2]\n\n        else:\n            self.encbytes = packet\n\n    def decrypt_keyblob(self, passphrase):\n        kb = super(ElGPriv, self).decrypt_keyblob(passphrase)',
@@ -4268,8 +4266,6 @@ T('C08', 'twin-pkesk-pkalg-get', PK, '        ct = _c.get(self._pkalg, None)\n  
   '        ctcls = _c.get(self._pkalg)\n        if ctcls is None:\n            self.ct = None\n\n        else:\n            self.ct = ctcls()\n', more=[(PK, "        _bytes += self.ct.__bytearray__() if self.ct is not None else b'\\x00' * (self.header.length - 10)\n", "        if self.ct is not None:\n            _bytes += self.ct.__bytearray__()\n\n        else:\n            _bytes += b'\\x00' * (self.header.length - 10)\n")])
 T('C08', 'twin-hashed-area-peek-spelling', FL, '        hl = self.bytes_to_int(packet[:2])\n        hashed_raw = packet[:2 + hl]\n        del packet[:2]\n',
   '        count_octets = packet[:2]\n        hl = self.bytes_to_int(count_octets)\n        area_end = hl + 2\n        hashed_raw = packet[:area_end]\n        del packet[:2]\n')
-T('C08', 'twin-sigv4-fixed-part-tuple', PK, '        self.sigtype = packet[0]\n        del packet[0]\n\n        self.pubalg = packet[0]\n        del packet[0]\n\n        self.halg = packet[0]\n        del packet[0]\n\n        self.subpackets.parse(packet)\n\n        self.hash2 = packet[:2]\n        del packet[:2]\n\n        self.signature.parse(packet)\n',
-  '        sigtype, pubalg, halg = packet[0], packet[1], packet[2]\n        del packet[:3]\n        self.sigtype = sigtype\n        self.pubalg = pubalg\n        self.halg = halg\n\n        sp = self.subpackets\n        sp.parse(packet)\n\n        left16 = packet[:2]\n        del packet[:2]\n        self.hash2 = left16\n\n        self.signature.parse(packet)\n')
 T('C08', 'twin-pubkey-fixed-part-local-body', PK, '        self.created = packet[:4]\n        del packet[:4]\n\n        self.pkalg = packet[0]\n        del packet[0]\n\n        # bound keymaterial to the remaining length of the packet\n        pend = self.header.length - 6\n        self.keymaterial.parse(packet[:pend])\n        del packet[:pend]\n',
   '        self.created = packet[:4]\n        self.pkalg = packet[4]\n        del packet[:5]\n\n        fixed = 1 + 4 + 1\n        body = packet[:self.header.length - fixed]\n        self.keymaterial.parse(body)\n        del packet[:self.header.length - fixed]\n')
 T('C08', 'twin-pubkey-writer-one-expression', PK, '        _bytes += self.int_to_bytes(calendar.timegm(self.created.utctimetuple()), 4)\n        _bytes += self.int_to_bytes(self.pkalg)\n        _bytes += self.keymaterial.__bytearray__()\n        return _bytes\n\n    def __copy__(self):\n        pk = self.__class__()',
@@ -4470,20 +4466,29 @@ M('C08', 'sig-two-fields-one-octet', PK, '        self.pubalg = packet[0]\n     
   '        self.pubalg = packet[0]\n        self.halg = packet[0]\n        del packet[0]\n\n        self.subpackets.parse(packet)\n', 'C08.c')
 T('C08', 'twin-message-new-compression-default-late', PGP, "        compression = kwargs.pop('compression', CompressionAlgorithm.ZIP)\n",
   "        compression = kwargs.pop('compression', None)\n", more=[(PGP, '        if charset:\n            msg.charset = charset\n', '        if charset:\n            msg.charset = charset\n\n        if compression is None:\n            compression = CompressionAlgorithm.ZIP\n\n        if compression is not None:\n            msg._compression = compression\n')])
-T('C08', 'twin-sigv4-repaired', PK, '    def parse(self, packet):\n        super(Signature, self).parse(packet)\n        self.sigtype = packet[0]\n        del packet[0]\n',
-  '    def parse(self, packet):\n        super(Signature, self).parse(packet)\n        plen = len(packet)\n        self.sigtype = packet[0]\n        del packet[0]\n', more=[(PK, '        self.hash2 = packet[:2]\n        del packet[:2]\n\n        self.signature.parse(packet)\n', '        self.hash2 = packet[:2]\n        del packet[:2]\n\n        send = self.header.length - 1 - (plen - len(packet))\n        self.signature.parse(packet[:send])\n        del packet[:send]\n'), (SS, '        super(EmbeddedSignature, self).parse(packet)\n        self._sig.parse(packet)\n', '        super(EmbeddedSignature, self).parse(packet)\n        self._sig.header.length = self.header.length - 1\n        self._sig.parse(packet)\n')])
-T('C08', 'twin-sigv4-repaired-respelled', PK, '    def parse(self, packet):\n        super(Signature, self).parse(packet)\n        self.sigtype = packet[0]\n        del packet[0]\n',
-  '    def parse(self, packet):\n        super(Signature, self).parse(packet)\n        start = len(packet)\n        self.sigtype = packet[0]\n        del packet[0]\n', more=[(PK, '        self.hash2 = packet[:2]\n        del packet[:2]\n\n        self.signature.parse(packet)\n', '        self.hash2 = packet[:2]\n        del packet[:2]\n\n        consumed = start - len(packet)\n        rest = self.header.length - consumed - 1\n        self.signature.parse(packet[:rest])\n        del packet[:rest]\n'), (SS, '        super(EmbeddedSignature, self).parse(packet)\n        self._sig.parse(packet)\n', '        super(EmbeddedSignature, self).parse(packet)\n        self._sig.header.length = self.header.length - 1\n        self._sig.parse(packet)\n')])
-M('C08', 'sigv4-repaired-no-version-octet', PK, '    def parse(self, packet):\n        super(Signature, self).parse(packet)\n        self.sigtype = packet[0]\n        del packet[0]\n',
-  '    def parse(self, packet):\n        super(Signature, self).parse(packet)\n        plen = len(packet)\n        self.sigtype = packet[0]\n        del packet[0]\n', 'C08.d', more=[(PK, '        self.hash2 = packet[:2]\n        del packet[:2]\n\n        self.signature.parse(packet)\n', '        self.hash2 = packet[:2]\n        del packet[:2]\n\n        send = self.header.length - (plen - len(packet))\n        self.signature.parse(packet[:send])\n        del packet[:send]\n'), (SS, '        super(EmbeddedSignature, self).parse(packet)\n        self._sig.parse(packet)\n', '        super(EmbeddedSignature, self).parse(packet)\n        self._sig.header.length = self.header.length - 1\n        self._sig.parse(packet)\n')])
-M('C08', 'sigv4-repaired-minus-2', PK, '    def parse(self, packet):\n        super(Signature, self).parse(packet)\n        self.sigtype = packet[0]\n        del packet[0]\n',
-  '    def parse(self, packet):\n        super(Signature, self).parse(packet)\n        plen = len(packet)\n        self.sigtype = packet[0]\n        del packet[0]\n', 'C08.d', more=[(PK, '        self.hash2 = packet[:2]\n        del packet[:2]\n\n        self.signature.parse(packet)\n', '        self.hash2 = packet[:2]\n        del packet[:2]\n\n        send = self.header.length - 2 - (plen - len(packet))\n        self.signature.parse(packet[:send])\n        del packet[:send]\n'), (SS, '        super(EmbeddedSignature, self).parse(packet)\n        self._sig.parse(packet)\n', '        super(EmbeddedSignature, self).parse(packet)\n        self._sig.header.length = self.header.length - 1\n        self._sig.parse(packet)\n')])
-M('C08', 'sigv4-measured-late', PK, '    def parse(self, packet):\n        super(Signature, self).parse(packet)\n        self.sigtype = packet[0]\n        del packet[0]\n',
-  '    def parse(self, packet):\n        super(Signature, self).parse(packet)\n        self.sigtype = packet[0]\n        del packet[0]\n        plen = len(packet)\n', 'C08.d', more=[(PK, '        self.hash2 = packet[:2]\n        del packet[:2]\n\n        self.signature.parse(packet)\n', '        self.hash2 = packet[:2]\n        del packet[:2]\n\n        send = self.header.length - 1 - (plen - len(packet))\n        self.signature.parse(packet[:send])\n        del packet[:send]\n'), (SS, '        super(EmbeddedSignature, self).parse(packet)\n        self._sig.parse(packet)\n', '        super(EmbeddedSignature, self).parse(packet)\n        self._sig.header.length = self.header.length - 1\n        self._sig.parse(packet)\n')])
-M('C08', 'sigv4-repaired-sign-flipped', PK, '    def parse(self, packet):\n        super(Signature, self).parse(packet)\n        self.sigtype = packet[0]\n        del packet[0]\n',
-  '    def parse(self, packet):\n        super(Signature, self).parse(packet)\n        plen = len(packet)\n        self.sigtype = packet[0]\n        del packet[0]\n', 'C08.d', more=[(PK, '        self.hash2 = packet[:2]\n        del packet[:2]\n\n        self.signature.parse(packet)\n', '        self.hash2 = packet[:2]\n        del packet[:2]\n\n        send = self.header.length - 1 - (len(packet) - plen)\n        self.signature.parse(packet[:send])\n        del packet[:send]\n'), (SS, '        super(EmbeddedSignature, self).parse(packet)\n        self._sig.parse(packet)\n', '        super(EmbeddedSignature, self).parse(packet)\n        self._sig.header.length = self.header.length - 1\n        self._sig.parse(packet)\n')])
-M('C08', 'sigv4-bounded-not-consumed', PK, '    def parse(self, packet):\n        super(Signature, self).parse(packet)\n        self.sigtype = packet[0]\n        del packet[0]\n',
-  '    def parse(self, packet):\n        super(Signature, self).parse(packet)\n        plen = len(packet)\n        self.sigtype = packet[0]\n        del packet[0]\n', 'C08.a', more=[(PK, '        self.hash2 = packet[:2]\n        del packet[:2]\n\n        self.signature.parse(packet)\n', '        self.hash2 = packet[:2]\n        del packet[:2]\n\n        send = self.header.length - 1 - (plen - len(packet))\n        self.signature.parse(packet[:send])\n'), (SS, '        super(EmbeddedSignature, self).parse(packet)\n        self._sig.parse(packet)\n', '        super(EmbeddedSignature, self).parse(packet)\n        self._sig.header.length = self.header.length - 1\n        self._sig.parse(packet)\n')])
+# SignatureV4.parse after the /repo repair 37c2cf8 (signature material bounded by measurement): re-based cases
+M('C08', 'sigv4-tuple-reads-swapped', PK, '        self.sigtype = packet[0]\n        del packet[0]\n\n        self.pubalg = packet[0]\n        del packet[0]\n\n        self.halg = packet[0]\n        del packet[0]\n\n        self.subpackets.parse(packet)\n\n        self.hash2 = packet[:2]\n        del packet[:2]\n',
+  '        sigtype, halg, pubalg = packet[0], packet[1], packet[2]\n        del packet[:3]\n        self.sigtype = sigtype\n        self.pubalg = pubalg\n        self.halg = halg\n\n        sp = self.subpackets\n        sp.parse(packet)\n\n        left16 = packet[:2]\n        del packet[:2]\n        self.hash2 = left16\n', 'C08.c')
+T('C08', 'twin-sigv4-fixed-part-tuple', PK, '        self.sigtype = packet[0]\n        del packet[0]\n\n        self.pubalg = packet[0]\n        del packet[0]\n\n        self.halg = packet[0]\n        del packet[0]\n\n        self.subpackets.parse(packet)\n\n        self.hash2 = packet[:2]\n        del packet[:2]\n',
+  '        sigtype, pubalg, halg = packet[0], packet[1], packet[2]\n        del packet[:3]\n        self.sigtype = sigtype\n        self.pubalg = pubalg\n        self.halg = halg\n\n        sp = self.subpackets\n        sp.parse(packet)\n\n        left16 = packet[:2]\n        del packet[:2]\n        self.hash2 = left16\n')
+T('C08', 'twin-sigv4-bound-inline', PK, '        send = self.header.length - 1 - (plen - len(packet))\n        self.signature.parse(packet[:send])\n        del packet[:send]\n',
+  '        self.signature.parse(packet[:self.header.length - 1 - (plen - len(packet))])\n        del packet[:self.header.length - 1 - (plen - len(packet))]\n')
+T('C08', 'twin-sigv4-bound-respelled', PK, '        plen = len(packet)\n\n        self.sigtype = packet[0]\n        del packet[0]\n',
+  '        start = len(packet)\n\n        self.sigtype = packet[0]\n        del packet[0]\n', more=[(PK, '        send = self.header.length - 1 - (plen - len(packet))\n        self.signature.parse(packet[:send])\n        del packet[:send]\n', '        consumed = start - len(packet)\n        rest = self.header.length - consumed - 1\n        self.signature.parse(packet[:rest])\n        del packet[:rest]\n')])
+M('C08', 'sigv4-bound-no-version-octet', PK, '        send = self.header.length - 1 - (plen - len(packet))\n',
+  '        send = self.header.length - (plen - len(packet))\n', 'C08.d')
+M('C08', 'sigv4-bound-minus-2', PK, '        send = self.header.length - 1 - (plen - len(packet))\n',
+  '        send = self.header.length - 2 - (plen - len(packet))\n', 'C08.d')
+M('C08', 'sigv4-measured-late', PK, '        plen = len(packet)\n\n        self.sigtype = packet[0]\n        del packet[0]\n',
+  '        self.sigtype = packet[0]\n        del packet[0]\n        plen = len(packet)\n', 'C08.d')
+M('C08', 'sigv4-bound-sign-flipped', PK, '        send = self.header.length - 1 - (plen - len(packet))\n',
+  '        send = self.header.length - 1 - (len(packet) - plen)\n', 'C08.d')
+M('C08', 'sigv4-bounded-not-consumed', PK, '        send = self.header.length - 1 - (plen - len(packet))\n        self.signature.parse(packet[:send])\n        del packet[:send]\n',
+  '        send = self.header.length - 1 - (plen - len(packet))\n        self.signature.parse(packet[:send])\n', 'C08.a')
+M('C08', 'sigv4-signature-unbounded-again', PK, '        send = self.header.length - 1 - (plen - len(packet))\n        self.signature.parse(packet[:send])\n        del packet[:send]\n',
+  '        self.signature.parse(packet)\n', 'C08.d', more=[(SS, '        self._sig.header.length = self.header.length - 1\n        self._sig.parse(packet)\n', '        self._sig.parse(packet)\n')])
+M('C08', 'sigv4-signature-in-place-only', PK, '        send = self.header.length - 1 - (plen - len(packet))\n        self.signature.parse(packet[:send])\n        del packet[:send]\n',
+  '        self.signature.parse(packet)\n', 'C08.d')
 # --- end C08 hardening
 M('C09', 'old-tag-shift', PT, "        tag |= (self.tag) if self._lenfmt else ((self.tag << 2) | {1: 0, 2: 1, 4: 2, 0: 3}[self.llen])", "        tag |= (self.tag) if self._lenfmt else ((self.tag << 1) | {1: 0, 2: 1, 4: 2, 0: 3}[self.llen])", 'C09.8')
 M('C09', 'tag-mask-1f', PT, "        _tag = (val & 0x3F) if self._lenfmt else ((val & 0x3C) >> 2)", "        _tag = (val & 0x1F) if self._lenfmt else ((val & 0x3C) >> 2)", 'C09.8')
